@@ -5,6 +5,7 @@ import FpgoVerif.Proofs.C15Bcq
 import FpgoVerif.Proofs.C15Cor
 import FpgoVerif.Proofs.C15Pool
 import FpgoVerif.Proofs.C15PoolProgress
+import FpgoVerif.Proofs.C15ExecReach
 import FpgoVerif.Gen.Skeletons
 import FpgoVerif.Gen.C15Bodies
 /-! Property theorems for C15 — "Shutdown is safe at any moment".  One transition system per component
@@ -278,6 +279,32 @@ theorem C15_exec_compact_mailbox (s : Mb.St) : Mb.compact s = s := Mb.compact_eq
 theorem C15_exec_compact_bcq (s : Bq.St) : Bq.compact s = s := Bq.compact_eq s
 theorem C15_exec_compact_cor (s : Co.St) : Co.compact s = s := Co.compact_eq s
 theorem C15_exec_compact_pool (s : Pl.St) : Pl.compact s = s := Pl.compact_eq s
+
+/-- `Exec.run` is that fold followed by the final drain (definitional) -/
+theorem C15_exec_run_eq {σ PC : Type} (ops : Ops σ PC) (e0 : Exec σ PC) (steps : List String) :
+    Exec.run ops e0 steps =
+      " ".intercalate ((execStates ops e0 steps).2.reverse ++ ["|", Exec.finish ops (execStates ops e0 steps).1]) := rfl
+
+/-- every shared state the driver visits while executing ANY directed schedule line — after each step and after the
+    final drain — is a `Reach` state of the component's transition system, so the safety / after-close / no-deadlock
+    theorems above speak about exactly the states behind the predictions `handle` prints -/
+theorem C15_exec_reach_mailbox (comp : String) (cap : Nat) (steps : List String) :
+    Mb.Reach cap true (execStates (Mb.ops comp) (Mb.exec0 cap) steps).1.sh :=
+  Exec.run_R (Mb.closed comp cap) steps _ Mb.Reach.init
+theorem C15_exec_reach_bcq (c b : Nat) (steps : List String) :
+    Bq.Reach c b true true (execStates Bq.ops (Bq.exec0 c b) steps).1.sh :=
+  Exec.run_R (Bq.closed c b) steps _ Bq.Reach.init
+theorem C15_exec_reach_cor (steps : List String) : Co.Reach 5 true (execStates Co.ops Co.exec0 steps).1.sh :=
+  Exec.run_R Co.closed steps _ Co.Reach.init
+theorem C15_exec_reach_pool (cap : Nat) (qc : Bool) (steps : List String) :
+    Pl.Reach cap qc true (execStates Pl.ops (Pl.exec0 cap qc) steps).1.sh :=
+  Exec.run_R (Pl.closed cap qc) steps _ Pl.Reach.init
+
+/-- hence, e.g., no directed schedule whatsoever makes the model predict a panic (the `=panic` tokens of an
+    observation can only come from the real code) -/
+theorem C15_exec_never_panics_bcq (c b : Nat) (steps : List String) :
+    (execStates Bq.ops (Bq.exec0 c b) steps).1.sh.panic = false :=
+  C15_bcq_safe (C15_exec_reach_bcq c b steps)
 
 /-! ## Protocol tie (regenerated from the repository on every run)
     `C15_body_*`: the exact statements of the small protocol functions (order of flag / close / send, lock mode,
